@@ -318,3 +318,76 @@ Qed.
 
 Lemma lweak_b_ok l : lweak_b false l = true -> lweak l.
 Proof. intros H. exact (lweak_b_sound (length l) l (le_n _) false H). Qed.
+
+(* ------------------------------------------------------------------ the boolean recognisers decide the predicates *)
+
+From Qv Require Import Proofs.DomainProofs.
+
+Lemma atom_b_iff a : atom_b a = true <-> atom a.
+Proof.
+  unfold atom_b, atom. rewrite andb_true_iff, negb_true_iff, Nat.eqb_neq, forallb_forall, Forall_forall.
+  split; intros [H1 H2]; (split; [|exact H2]).
+  - intros ->. apply H1. reflexivity.
+  - intros E. apply H1. destruct a; [reflexivity|discriminate].
+Qed.
+
+Lemma dot_string_join ls : ls <> [] -> Forall atom ls -> dot_string (join_dots ls).
+Proof.
+  induction ls as [|l ls IH]; intros Hne HF; [congruence|].
+  inversion HF as [|? ? Hl Hls]; subst. destruct ls as [|l2 ls].
+  - apply ds_one. exact Hl.
+  - rewrite join_dots_cons2. apply ds_more; [exact Hl|]. apply IH; [discriminate|exact Hls].
+Qed.
+
+Lemma dot_string_b_iff l : dot_string_b l = true <-> dot_string l.
+Proof.
+  unfold dot_string_b. split.
+  - intros H. rewrite <- (join_split l). apply dot_string_join; [apply split_dots_nonnil|].
+    apply Forall_forall. intros a Ha. apply atom_b_iff. rewrite forallb_forall in H. auto.
+  - induction 1 as [a Ha|a r Ha Hr IH].
+    + destruct (atom_facts a Ha) as (Hnd & _). rewrite (split_nodot a Hnd). cbn [forallb].
+      rewrite (proj2 (atom_b_iff a) Ha). reflexivity.
+    + destruct (atom_facts a Ha) as (Hnd & _). rewrite (split_app_dot a r Hnd). cbn [forallb].
+      rewrite (proj2 (atom_b_iff a) Ha), IH. reflexivity.
+Qed.
+
+Lemma qbody_b_sound m : forall r, length r <= m -> qbody_b r = true -> exists q, r = q ++ [cQUOTE] /\ qcontent q.
+Proof.
+  induction m as [|m IH]; intros r Hlen H.
+  - destruct r; [discriminate|simpl in Hlen; ulia].
+  - destruct r as [|c r']; [discriminate|]. cbn [qbody_b] in H.
+    assert (Hlen' : length r' <= m) by (simpl in Hlen; ulia).
+    destruct (N.eqb_spec c cQUOTE) as [->|Hq].
+    + apply Nat.eqb_eq in H. destruct r'; [|discriminate]. exists []. split; [reflexivity|constructor].
+    + destruct (N.eqb_spec c cBSL) as [->|Hb].
+      * destruct r' as [|e r'']; [discriminate|]. apply andb_true_iff in H as [He H].
+        destruct (IH r'' ltac:(simpl in Hlen'; ulia) H) as (q & -> & Hqc).
+        exists (cBSL :: e :: q). split; [reflexivity|]. apply qc_pair; [|exact Hqc].
+        apply orb_true_iff in He as [E|E]; apply N.eqb_eq in E; auto.
+      * apply andb_true_iff in H as [Hc H]. destruct (IH r' Hlen' H) as (q & -> & Hqc).
+        exists (c :: q). split; [reflexivity|]. apply qc_text; assumption.
+Qed.
+
+Lemma qbody_b_complete q : qcontent q -> qbody_b (q ++ [cQUOTE]) = true.
+Proof.
+  induction 1 as [|c r Hc _ IH|e r He _ IH].
+  - reflexivity.
+  - destruct (qtext_not_special c Hc) as [H1 H2]. apply N.eqb_neq in H1, H2.
+    cbn [app qbody_b]. rewrite H1, H2, Hc. exact IH.
+  - cbn [app qbody_b]. change (N.eqb cBSL cQUOTE) with false. rewrite N.eqb_refl.
+    destruct He as [->| ->]; cbn [N.eqb orb andb]; try rewrite N.eqb_refl; exact IH.
+Qed.
+
+Lemma quoted_string_b_iff l : quoted_string_b l = true <-> quoted_string l.
+Proof.
+  unfold quoted_string_b, quoted_string. split.
+  - destruct l as [|c r]; [discriminate|]. intros H. apply andb_true_iff in H as [Hc H]. apply N.eqb_eq in Hc. subst c.
+    destruct (qbody_b_sound (length r) r (le_n _) H) as (q & -> & Hq). exists q. auto.
+  - intros (q & -> & Hq). rewrite N.eqb_refl. cbn [andb]. now apply qbody_b_complete.
+Qed.
+
+(** the checker used on C outputs decides "Dot-string or Quoted-string" *)
+Theorem local_rfc_b_iff l : local_rfc_b l = true <-> local_rfc l.
+Proof.
+  unfold local_rfc_b, local_rfc. rewrite orb_true_iff, dot_string_b_iff, quoted_string_b_iff. tauto.
+Qed.
